@@ -430,6 +430,12 @@ impl<'a> Gen<'a> {
             });
         }
         let _ = cx;
+        if self.w(2) {
+            // retained data: the loop keeps appending to a table held by a global, so small limits
+            // are exceeded by data that is still reachable
+            body.push(card("AppendTable", vec![strlit("retained string, reachable through the global table"), read("keep")]));
+            return vec![setg("keep", card("CreateTable", vec![])), repeat(&i, int(k), block(body))];
+        }
         vec![repeat(&i, int(k), block(body))]
     }
 
